@@ -740,3 +740,43 @@ C20 = dict(
     assumptions=["exploration, not exhaustiveness: arbitrary byte strings beyond these generators are not covered", "nesting depth <= 48"],
 )
 FAMILIES["C20"] = C20
+
+import props_c09, props_c10; FAMILIES["C09"] = props_c09.C09; FAMILIES["C10"] = props_c10.C10
+
+
+# ----------------------------------------------------------------- repository tests with the verif-trace hooks (thorough tier)
+def _hook_traces(kind, trace_module):
+    def f(fam, tier, wd, seed):
+        import glob, os, subprocess, vlib
+        prev = fam.get("_prev_extra")
+        out = prev(fam, tier, wd, seed) if prev else []
+        if tier != "thorough":
+            return out
+        hd = os.path.join(vlib.WORK, "hooks_" + kind)
+        os.makedirs(hd, exist_ok=True)
+        for p in glob.glob(os.path.join(hd, "tr.*")):
+            os.remove(p)
+        env = dict(os.environ, CEDAR_VERIF_TRACE=os.path.join(hd, "tr"), CARGO_TARGET_DIR=os.path.join(vlib.WORK, "hooktarget"), CARGO_NET_OFFLINE="true")
+        for pkg in ("cedar-policy-core", "cedar-policy"):
+            r = subprocess.run(["cargo", "test", "--offline", "-p", pkg, "--lib", "--features", "verif-trace"], cwd=vlib.REPO, env=env,
+                               stdout=subprocess.PIPE, stderr=subprocess.STDOUT, text=True)
+            vlib.log("repo tests with hooks (%s): rc=%d %s" % (pkg, r.returncode, [l for l in r.stdout.splitlines() if l.startswith("test result")][-1:]))
+        tpath = os.path.join(wd, "hooks.trace.ndjson")
+        n = 0
+        with open(tpath, "w") as w:
+            for p in sorted(glob.glob(os.path.join(hd, "tr.*"))):
+                for line in open(p):
+                    if '"ev":"%s"' % kind in line:
+                        w.write(line)
+                        n += 1
+        vlib.log("hook events of kind %s: %d" % (kind, n))
+        if n:
+            out.append((tpath, "T:repo-tests(hooks)", trace_module))
+        return out
+    return f
+
+
+C04["_prev_extra"] = C04.get("extra_traces")
+C04["extra_traces"] = _hook_traces("EsOp", "Trace_StoreHook.tla")
+C01["_prev_extra"] = C01.get("extra_traces")
+C01["extra_traces"] = _hook_traces("AuthzHook", "Trace_AuthzHook.tla")
